@@ -101,6 +101,12 @@ impl Extension {
                 "The URL '{url}' is reserved by XML and cannot be used for an extension"
             ))?
         }
+        if url.is_empty() || url == "http://www.astm.org/COMMIT/E57/2010-e57-v1.0" {
+            // Attributes of such an extension would be read back as standard attributes
+            Error::invalid(
+                "An extension needs its own URL that is not empty and not the E57 namespace",
+            )?
+        }
         Ok(())
     }
 
